@@ -83,3 +83,36 @@ func fromData(v data.Value) (ref.Value, bool) {
 	}
 	return ref.Value{}, false
 }
+
+// toJSON converts a reference value to what encoding/json should send to node.
+func toJSON(v ref.Value) interface{} {
+	switch v.K {
+	case ref.Null, ref.Undefined:
+		return nil
+	case ref.Bool:
+		return v.B
+	case ref.Int:
+		return v.I
+	case ref.Float:
+		return v.F
+	case ref.String:
+		return v.S
+	case ref.List:
+		out := make([]interface{}, len(v.L))
+		for i, it := range v.L {
+			out[i] = toJSON(it)
+		}
+		return out
+	case ref.Map:
+		return toJSONMap(v.M)
+	}
+	return nil
+}
+
+func toJSONMap(m map[string]ref.Value) map[string]interface{} {
+	out := map[string]interface{}{}
+	for k, v := range m {
+		out[k] = toJSON(v)
+	}
+	return out
+}
